@@ -22,14 +22,20 @@ and the observation traces must be identical (else HarnessError NONDET).
 """
 import copy
 import hashlib
+import re
 import json
 import os
 import time
 from collections import Counter
 
 
+_ADDR = re.compile(r"0x[0-9a-fA-F]{6,}")
+
+
 class Violation(Exception):
     def __init__(self, sub, msg, expected=None, observed=None, sig=None):
+        # object addresses in reprs differ between executions; they are not part of a verdict
+        msg = _ADDR.sub("0x…", str(msg))
         super().__init__(msg)
         self.sub = sub
         self.msg = msg
